@@ -90,6 +90,8 @@ fn expr_ref<T: quote::ToTokens>(t: &T) -> Option<String> {
 
 fn lit_of(e: &Expr) -> Option<Lit> {
     match strip_groups(e) {
+        // (an attribute on the literal is part of what the user wrote; a bare literal cannot hold it)
+        Expr::Lit(l) if !l.attrs.is_empty() => None,
         Expr::Lit(l) => Some(l.lit.clone()),
         // `-` applied to a numeric literal is how a negative literal arrives when it is not the
         // last thing in its token stream: the same literal
@@ -185,7 +187,7 @@ fn num_elems<T: std::str::FromStr + ToString>(a: &syn::ExprArray) -> Option<Stri
     for el in &a.elems {
         // invisible groups are looked through, however many, as for every other value
         let l = match strip_groups(el) {
-            Expr::Lit(l) => &l.lit,
+            Expr::Lit(l) if l.attrs.is_empty() => &l.lit,
             _ => return None,
         };
         let v: T = match l {
@@ -526,7 +528,16 @@ fn fragment(rng: &mut Rng) -> (String, &'static str) {
                     _ => format!("{}u8", rng.below(256)),
                 })
                 .collect();
-            (format!("[{}]", els.join(", ")), "array")
+            // an attribute on an element, or on the array itself: tokens the user wrote, which a plain
+            // value cannot carry (a vector of numbers or literals must not silently drop a `#[cfg(..)]`)
+            let mut els = els;
+            let mut family = "array";
+            if !els.is_empty() && rng.chance(1, 8) {
+                let k = rng.below(els.len());
+                els[k] = format!("#[cfg(feature = \"extra\")] {}", els[k]);
+                family = "array-with-attribute";
+            }
+            (format!("[{}]", els.join(", ")), family)
         }
         8 => (format!("{}..{}", rng.below(9), rng.below(99)), "range"),
         9 | 10 | 11 => (gram::ty(rng, 3), "type"),
